@@ -142,7 +142,10 @@ func checkSpec(data []byte) (accepted bool, consumed bool, err error) {
 					e1 = fmt.Errorf("Spec.DFA returns automaton=%v, map=%v and error=%v; exactly one side must be set", d != nil, tm != nil, derr)
 				}
 			}); p != nil {
-				return fmt.Errorf("Spec.DFA: %v", p)
+				if !(bigAutomaton(sp) && reindexKnown()) {
+					return fmt.Errorf("Spec.DFA: %v", p)
+				}
+				rec.Count("excluded_known_reindex_panic", 1)
 			}
 			if e1 != nil {
 				return e1
@@ -169,6 +172,36 @@ func checkSpec(data []byte) (accepted bool, consumed bool, err error) {
 		return nil
 	})
 	return
+}
+
+var reindexOnce sync.Once
+var reindexFlag bool
+
+// reindexKnown probes the listed dependency finding: Spec.DFA panics for a token pattern /a{64}/.
+func reindexKnown() bool {
+	reindexOnce.Do(func() {
+		present := false
+		if sp, err := spec.Parse("p.ebnf", strings.NewReader("grammar g;\nAB = /a{64}/\nstart = AB;\n")); err == nil {
+			present = rec.Guard(func() { _, _, _ = sp.DFA() }) != nil
+		}
+		reindexFlag = rec.Known("reindex-queue-panic", present)
+	})
+	return reindexFlag
+}
+
+// bigAutomaton reports whether some pattern definition has a minimised automaton of 65 or more states.
+func bigAutomaton(sp *spec.Spec) bool {
+	big := false
+	_ = rec.Guard(func() {
+		for _, d := range sp.Definitions {
+			if d.IsRegex {
+				if n, err := nfa.Parse(d.Value); err == nil && len(n.ToDFA().Minimize().EliminateDeadStates().States()) >= 65 {
+					big = true
+				}
+			}
+		}
+	})
+	return big
 }
 
 func nProds(sp *spec.Spec) int {
@@ -244,7 +277,7 @@ func checkPattern(s string) (accepted bool, err error) {
 
 var hostileSpecs = []string{"", "grammar", "grammar g", "grammar g;", "grammar g; start = ;", "grammar g; start = start | ;x", "grammar g; @left", "grammar g; A", "grammar g; AB = ", "grammar g; AB = $X start = AB;",
 	"grammar g; AB = /[\\x0100]/ start = AB;", "grammar g; AB = // start = AB;", "grammar g; start = \"\\", "grammar g; start = {{{ \"a\" }}};", "grammar g; start = < ;", "grammar g; @left < start = > ; start = ;",
-	"grammar g; @none <x = > <x = > ; start = x; x = ;", "grammar g; start = ((((((((((\"a\"))))))))));", "grammar g; AB = /[\\xFFFFFFFF]/ start = AB;", "grammar g; AB = /a{3,1}/ start = AB;"}
+	"grammar g; @none <x = > <x = > ; start = x; x = ;", "grammar g; start = ((((((((((\"a\"))))))))));", "grammar g; AB = /[\\xFFFFFFFF]/ start = AB;", "grammar g; AB = /a{3,1}/ start = AB;", "grammar g; AB = /a{64}/ start = AB;", "grammar g; AB = /[a-z]{70}x/ start = AB;"}
 
 func genSpecBytes(t *rapid.T) ([]byte, string) {
 	switch rapid.IntRange(0, 9).Draw(t, "source") {
@@ -292,7 +325,7 @@ func genSpecBytes(t *rapid.T) ([]byte, string) {
 var patternAlphabet = []rune(`\|.?*+()[]{}$^-,:ab12xpPAF sdwLu=`)
 
 var hostilePatterns = []string{"", `\`, "(", ")", "[", "]", "{", "}", "[]", "[^]", "()", "a{", "a{1", "a{1,", "a{,1}", "a{2,1}", "[z-a]", `[\x0100]`, `[\xFFFFFFFF]`, `[\p{Greek}]`, `\p{`, `\p{Lu`, `\p{Nope}`, `[[:alpha:]`, `[:alpha:]`,
-	`\x`, `\x1`, `\xZZ`, `\x00`, `[\x00-\x7F]`, "a**", "a|", "|a", "^", "$", "^$", "a^", `\d-\w`, `[a-\d]`, `[\d-a]`, "é", "[é]", `(((((((a)))))))`, `a?{2}`, `(a|)`, `\x80`, `[\x80]`}
+	`\x`, `\x1`, `\xZZ`, `\x00`, `[\x00-\x7F]`, "a**", "a|", "|a", "^", "$", "^$", "a^", `\d-\w`, `[a-\d]`, `[\d-a]`, "é", "[é]", `(((((((a)))))))`, `a?{2}`, `(a|)`, `\x80`, `[\x80]`, `[a-\x7FFFFFFF]`, `[\x00110000-\x7FFFFFFF]x`, `[^a-\xFFFFFFFF]`}
 
 var bigEscape = regexp.MustCompile(`\\x[0-9A-F]{5,8}`)
 
@@ -350,6 +383,9 @@ func TestSpecificationsNeverCrash(t *testing.T) {
 				break
 			}
 		}
+	}
+	if reindexKnown() {
+		rec.Assume("listed finding reindex-queue-panic (dependency): Spec.DFA may panic when a token pattern's minimised automaton has 65 or more states (counted as excluded_known_reindex_panic)")
 	}
 	if unproductiveKnown() {
 		rec.Assume("listed finding unproductive-nonterminal-panic (dependency): LALRParsingTable is not called for accepted specifications with a non-terminal that derives no terminal string (counted as excluded_known_unproductive)")
